@@ -331,7 +331,7 @@ fn verif_native_c07_molodensky() {
     let mut ctx = Minimal::default();
     let mut fails = Vec::new();
     let mut n = 0;
-    for (dx, dy, dz) in [(84.87, 96.49, 116.95), (-148.0, 507.0, 685.0)] {
+    for (dx, dy, dz) in [(84.87f64, 96.49f64, 116.95f64), (-148.0, 507.0, 685.0)] {
         let exact = ctx.op(&format!("cart ellps=WGS84 | helmert x={dx} y={dy} z={dz} | cart inv ellps=intl")).unwrap();
         for abridged in [false, true] {
             let op = ctx.op(&format!("molodensky ellps_0=WGS84 ellps_1=intl dx={dx} dy={dy} dz={dz}{}", if abridged { " abridged" } else { "" })).unwrap();
@@ -350,7 +350,7 @@ fn verif_native_c07_molodensky() {
                             let plane = (((a[0][0] - b[0][0]) * lat.cos()).powi(2) + (a[0][1] - b[0][1]).powi(2)).sqrt() * 6.4e6;
                             let vert = (a[0][2] - b[0][2]).abs();
                             // first-order method: truncation error ~ shift^2 / R; the abridged formulas additionally neglect h: ~ shift * h / R
-                            let shift = (dx * dx + dy * dy + dz * dz).sqrt();
+                            let shift = f64::sqrt(dx * dx + dy * dy + dz * dz);
                             let tol = 0.01 + 1.5 * shift * shift / 6.4e6 + if abridged { 2.5 * shift * h / 6.4e6 } else { 0.0 };
                             let e = plane.max(vert) - tol;
                             if e > worst.0 {
